@@ -315,9 +315,26 @@ func describeBase(v ssa.Value) string {
 		}
 	case *ssa.Alloc:
 		return "local " + a.Comment
+	case *ssa.Extract:
+		return fmt.Sprintf("%s#%d", describeBase(a.Tuple), a.Index)
+	case *ssa.Lookup:
+		return describeBase(a.X) + "[..]"
+	case *ssa.Index:
+		return describeBase(a.X) + "[..]"
+	case *ssa.IndexAddr:
+		return describeBase(a.X) + "[..]"
+	case *ssa.MakeMap:
+		return "local map"
+	case *ssa.Convert:
+		return describeBase(a.X)
+	case *ssa.ChangeType:
+		return describeBase(a.X)
 	}
 	return shortType(v.Type())
 }
+
+// Describe gives a position- and register-independent description of a value (for construct keys).
+func Describe(v ssa.Value) string { return describeBase(v) }
 
 func shortType(t types.Type) string {
 	return types.TypeString(t, func(p *types.Package) string { return p.Name() })
@@ -589,6 +606,80 @@ func resolveClosure(v ssa.Value) (*ssa.Function, []ssa.Value) {
 	return nil, nil
 }
 
+// resolveCaptured resolves a call through a free variable that holds a closure created by
+// the enclosing function. The target's bindings live in the enclosing function's frame:
+// their provenance is taken from the calling clone's parent when that is the enclosing
+// function, and is Unknown otherwise.
+func (e *Explorer) resolveCaptured(c *clone, v ssa.Value) (*ssa.Function, []Prov, bool) {
+	var fv *ssa.FreeVar
+	byRef := false
+	switch x := v.(type) {
+	case *ssa.FreeVar:
+		fv = x
+	case *ssa.UnOp:
+		if f, ok := x.X.(*ssa.FreeVar); ok && x.Op == token.MUL {
+			fv, byRef = f, true
+		}
+	}
+	if fv == nil || c.fn.Parent() == nil {
+		return nil, nil, false
+	}
+	idx := -1
+	for i, f := range c.fn.FreeVars {
+		if f == fv {
+			idx = i
+		}
+	}
+	if idx < 0 {
+		return nil, nil, false
+	}
+	// find the MakeClosure of c.fn in its parent and the binding for fv
+	var target *ssa.MakeClosure
+	n := 0
+	for _, b := range c.fn.Parent().Blocks {
+		for _, in := range b.Instrs {
+			mc, ok := in.(*ssa.MakeClosure)
+			if !ok || mc.Fn != c.fn || idx >= len(mc.Bindings) {
+				continue
+			}
+			n++
+			bind := mc.Bindings[idx]
+			if byRef {
+				if al, ok := bind.(*ssa.Alloc); ok {
+					cnt := 0
+					for _, r := range *al.Referrers() {
+						if st, ok := r.(*ssa.Store); ok && st.Addr == al {
+							cnt++
+							if t, ok := st.Val.(*ssa.MakeClosure); ok {
+								target = t
+							}
+						}
+					}
+					if cnt != 1 {
+						target = nil
+					}
+				}
+			} else if t, ok := bind.(*ssa.MakeClosure); ok {
+				target = t
+			}
+		}
+	}
+	if n != 1 || target == nil {
+		return nil, nil, false
+	}
+	var fvs []Prov
+	for _, b := range target.Bindings {
+		if c.parent != nil && c.parent.fn == c.fn.Parent() {
+			fvs = append(fvs, c.parent.prov(b))
+		} else if PointerLike(b.Type()) {
+			fvs = append(fvs, Unknown)
+		} else {
+			fvs = append(fvs, 0)
+		}
+	}
+	return target.Fn.(*ssa.Function), fvs, true
+}
+
 func (e *Explorer) elemProv(c *clone, v ssa.Value) Prov {
 	return e.loadFrom(c, v, "elem:"+typeKey(v.Type()))
 }
@@ -660,13 +751,20 @@ func (e *Explorer) call(c *clone, site ssa.Instruction, cc *ssa.CallCommon, res 
 		return
 	}
 	callee, bindings := resolveClosure(cc.Value)
+	var fvs []Prov
+	if callee == nil {
+		// a function value captured from the enclosing function
+		if fn2, fv2, ok := e.resolveCaptured(c, cc.Value); ok {
+			callee, fvs = fn2, fv2
+		}
+	} else {
+		for _, b := range bindings {
+			fvs = append(fvs, c.prov(b))
+		}
+	}
 	if callee == nil {
 		e.dynCall(c, site, cc, args, provs, res)
 		return
-	}
-	var fvs []Prov
-	for _, b := range bindings {
-		fvs = append(fvs, c.prov(b))
 	}
 	if len(callee.Blocks) == 0 || !e.inScope(callee) {
 		e.extCall(c, site, extName(callee), args, provs, res)
@@ -745,7 +843,7 @@ func (e *Explorer) analyseCallback(c *clone, site ssa.Instruction, v ssa.Value) 
 
 // analyseMethods explores the named methods of the dynamic type behind an
 // interface argument (sort.Interface etc.) with the argument's provenance as receiver.
-func (e *Explorer) analyseMethods(c *clone, site ssa.Instruction, v ssa.Value, methods []string) bool {
+func (e *Explorer) analyseMethods(c *clone, site ssa.Instruction, v ssa.Value, methods []string, extName string, rest []Prov) bool {
 	mi, ok := v.(*ssa.MakeInterface)
 	if !ok {
 		return false
@@ -770,7 +868,13 @@ func (e *Explorer) analyseMethods(c *clone, site ssa.Instruction, v ssa.Value, m
 		if len(ps) > 0 {
 			ps[0] = rp
 		}
-		e.get(fn, ps, make([]boolc, len(fn.Params)), nil, c, site.Pos())
+		if strings.HasSuffix(extName, "."+m) {
+			for i := 1; i < len(ps) && i-1 < len(rest); i++ {
+				ps[i] = rest[i-1]
+			}
+		}
+		cl := e.get(fn, ps, make([]boolc, len(fn.Params)), nil, c, site.Pos())
+		_ = cl
 	}
 	return okAll
 }
@@ -874,6 +978,10 @@ func summarize(name string) (extSummary, bool) {
 	switch name {
 	case "sort.Sort", "sort.Stable":
 		return extSummary{how: "sorts argument 0 through its Len/Less/Swap methods", methods: []string{"Len", "Less", "Swap"}, readsOnly: true}, true
+	case "container/heap.Push", "container/heap.Init", "container/heap.Fix":
+		return extSummary{how: "container/heap: operates on argument 0 through its Len/Less/Swap/Push/Pop methods (analysed as callbacks)", methods: []string{"Len", "Less", "Swap", "Push", "Pop"}, readsOnly: true}, true
+	case "container/heap.Pop", "container/heap.Remove":
+		return extSummary{how: "container/heap: removes and returns an element of argument 0 (callbacks analysed); result is whatever was stored in the heap", methods: []string{"Len", "Less", "Swap", "Push", "Pop"}, readsOnly: true, result: "heap-elem"}, true
 	case "sort.Slice", "sort.SliceStable":
 		return extSummary{how: "sorts argument 0 in place", writes: []int{0}, callbacks: true}, true
 	case "sort.Strings", "sort.Ints", "sort.Float64s":
@@ -991,7 +1099,7 @@ func (e *Explorer) extCall(c *clone, site ssa.Instruction, name string, args []s
 		e.undecided(c, site, "extcall", name, union, "summary does not say what is written")
 	}
 	if len(sum.methods) > 0 && len(args) > 0 {
-		if !e.analyseMethods(c, site, args[0], sum.methods) {
+		if !e.analyseMethods(c, site, args[0], sum.methods, name, provs[1:]) {
 			if provs[0]&NonOwned != 0 {
 				e.undecided(c, site, "extcall", name+" on unresolved dynamic type", provs[0], "cannot resolve the dynamic type whose methods are called back")
 			}
@@ -1007,6 +1115,8 @@ func (e *Explorer) extCall(c *clone, site ssa.Instruction, name string, args []s
 		}
 	}
 	switch sum.result {
+	case "heap-elem":
+		setRes(e.heap["elem:[]interface{}"] | e.heap["elem:[]any"] | (union &^ Fresh))
 	case "alias":
 		setRes(Fresh | union)
 	default:
